@@ -1064,6 +1064,20 @@ def special_checks():
                         bad.append(dict(case=f'{call} of an expression that does not depend on t', expression=nm, order=k, violated=['broadcasts against t']))
     except Exception as e:
         bad.append(dict(case='unchecked entry point on an expression that does not depend on t', violated=[f'{type(e).__name__}: {e}']))
+    # mixed precision: coordinates of one precision, expression evaluated in the other (a float64 accuracy check of a float32 run, or
+    # the reverse) - the derivative is the derivative, in the precision of the coordinate
+    try:
+        for dt_t, dt_u in ((torch.float32, torch.float64), (torch.float64, torch.float32)):
+            t = torch.tensor([[0.5], [-1.25], [2.0]], dtype=dt_t, requires_grad=True)
+            x = torch.tensor([[1.5], [0.25], [-0.75]], dtype=dt_t, requires_grad=True)
+            u = (t.to(dt_u) ** 3) * x.to(dt_u) + torch.sin(x.to(dt_u))
+            for nm, got, want in (('du/dt', diff(u, t), 3 * t ** 2 * x), ('d2u/dt2', diff(u, t, order=2), 6 * t * x), ('d2u/dtdx', diff(diff(u, t), x), 3 * t ** 2),
+                                  ('du/dx', diff(u, x), t ** 3 + torch.cos(x))):
+                if tuple(got.shape) != (3, 1) or not torch.allclose(got.detach().double(), want.detach().double(), rtol=1e-5, atol=1e-6):
+                    bad.append(dict(case='coordinates and expression of different precision', coordinate_dtype=str(dt_t), expression_dtype=str(dt_u), derivative=nm,
+                                    got=got.detach().reshape(-1).tolist(), want=want.detach().reshape(-1).tolist(), violated=['differs from the derivative']))
+    except Exception as e:
+        bad.append(dict(case='coordinates and expression of different precision', violated=[f'{type(e).__name__}: {e}']))
     # same values when diff is called inside torch.no_grad() on an expression that was built with grad enabled
     try:
         x, t = col(0.5, -1.0, 2.0), col(0.3, 0.6, -0.9)
